@@ -39,12 +39,17 @@ def type_items():
 
 # types whose path count needs several cores: the first log2(n) symbolic bools are fixed per instance
 SPLIT = {'cat.Maps': 16, 'cat.HasUnions': 16, 'cat.Nest': 16, 'cat.Opt': 16, 'cat.UO': 8, 'cat.Lists': 2,
-         'cat.Deep': 2, 'cat.UsesAliases': 2}
+         'cat.Deep': 2, 'cat.UsesAliases': 2, 'cat.WithBytes': 8}
+# quick tier: explored one top-level field at a time (the other fields hold fixed valid values)
+FOCUS = ('cat.HasUnions', 'cat.WithBytes')
 
 
 def split_items(items):
     out = []
     for it in items:
+        if it in FOCUS and hx.TIER == 'quick':
+            out.extend('%s#%d' % (it, k) for k in range(len(lookup(it)[0].all_fields)))
+            continue
         n = SPLIT.get(it, 1)
         if hx.TIER == 'thorough':
             n = min(16, n * 4) if n > 1 else 1
@@ -69,7 +74,7 @@ def fixed_bits(item):
 
 
 def lookup(item):
-    item = item.split('@')[0]
+    item = item.split('@')[0].split('#')[0]
     nsname, name = item.split('.')
     ns = API.namespaces[nsname]
     if name in ns.data_type_by_name:
@@ -123,7 +128,8 @@ OUTSIDE = ['Bytes/Timestamp payloads from a concrete list', 'map keys concrete',
 def _build(i, s, b, f, catch_all):
     dt, validator = lookup(hx.ITEM)
     pool = hx.Pool(ints=i, strs=s, bools=fixed_bits(hx.ITEM) + tuple(b), floats=f)
-    gen = valgen.Gen(MODS, pool, max_list=NL, catch_all=catch_all)
+    focus = int(hx.ITEM.split('#')[1]) if '#' in hx.ITEM else None
+    gen = valgen.Gen(MODS, pool, max_list=NL, catch_all=catch_all, focus=focus)
     val, sh = gen.build(dt)
     if not isinstance(sh, tuple):
         # top-level primitive / list / map: nothing validated it yet; the real validator is the validity predicate
